@@ -495,6 +495,7 @@ type FuncContract struct {
 	Requires []Clause
 	Ensures  []Clause
 	Panics   *Clause // panics when E
+	PanicsOnly bool  // "panics only when E": explicit panics occur only under E (no claim that E forces a panic)
 	Modifies []string
 	HasMod   bool
 	Pure     bool
@@ -629,6 +630,11 @@ func parseContractLines(lines []rawLine, pkg string) ([]*FuncContract, error) {
 				cur.Ensures = append(cur.Ensures, c)
 			}
 		case "panics":
+			if strings.HasPrefix(rest, "only when") {
+				cur.PanicsOnly = true
+				rest = strings.TrimPrefix(rest, "only")
+				rest = strings.TrimSpace(rest)
+			}
 			rest = strings.TrimSpace(strings.TrimPrefix(rest, "when"))
 			c, err := mkClause(rest, l)
 			if err != nil {
